@@ -96,6 +96,10 @@ class Session:
         elif fn == "bidib_set_track_output_state_all": toks = [str(i)]
         else: toks = [_t(x) for x in sargs]
         self._add("hl %s %s" % (fn, " ".join(toks)), {"e": "hl", "fn": fn, "s": ["" if x is None else x for x in sargs], "i": i, "_copy": ["ret"]})
+    def ll(self, fn, na, args):
+        """low-level send in normal mode (TLl)"""
+        from . import gen_downlink
+        line, ev = gen_downlink.ll_line(fn, na, args); self._add(line, ev)
     def tick(self, d): self._add("tick %d" % d, {"e": "tick", "d": d})
     def flush(self): self._add("flush", {"e": "flush"})
     def end(self):
